@@ -32,7 +32,8 @@ Clauses (names as they appear in violation records)
         rel_onset_div, tot_measure_div of Part.note_array equal the reference at the note's onset; for a note starting in
         no measure (where the statement fixes no extent) the last three equal what Part.metrical_position_map itself
         returns for that onset: distance and length as they are, is_downbeat = 1 exactly when the distance is 0
-  rest-array-columns   the same for the rows of Part.rest_array (parts with rests: space onsets-outside-measures)
+  rest-array-columns   the same for the rows of Part.rest_array (parts with rests: spaces onsets-outside-measures and
+        array-option-combinations; the latter also for the arrays of part lists, groups and scores)
   map-total            building or calling a map raised
   requery-after-write  (space write-into-result-then-query) a map object held by the caller still returns the values in
         force after the caller has overwritten, in place, an array it got back from an earlier query of that map
@@ -43,6 +44,12 @@ Space `timeline-beyond-measures`: the measures do not span the whole timeline - 
 (a note sounding over it / starting at or after it, a key signature, clef or time signature after it) and/or begins
 before the first barline; positions inside a measure must still get that measure's extent, number and length
 (also in the note-array columns), positions in no measure are only checked for scalar/array agreement.
+
+Space `array-option-combinations`: the ks_* / ts_* / metrical columns of note arrays and rest arrays are requested under
+EVERY subset of the boolean options of the call (so also key AND time signature together, with and without pitch
+spelling / grace / staff / divs columns before and after them, collapse=True for rests), through every public way of
+getting such an array (Part methods, the *_from_part functions, the part-list functions, PartGroup and Score with two
+parts that have different signatures); each requested column must hold the reference value of the row's own part.
 
 Space `onsets-outside-measures`: a note and/or a rest STARTS at every position before the first barline and at or after
 the final barline (so also exactly 1, 2, .. bar lengths from the start of the last / first measure); the metrical columns
@@ -61,7 +68,9 @@ RULE = (
     "set_quarter_duration operations (space inplace-then-query: "
     "also use_musical_beat / use_notated_beat / set_musical_beat_per_ts and attribute assignments on the elements) in 1-4 phases; "
     "after each phase all compared maps are queried at every integer timeline position in 9 argument forms (space "
-    "write-into-result-then-query: and again on the same map object after the caller overwrote each returned array); each "
+    "write-into-result-then-query: and again on the same map object after the caller overwrote each returned array; space "
+    "array-option-combinations: and the note / rest array is built through one entry point under every subset of its "
+    "boolean options - each array with a requested signature / metrical column counts as one more state); each "
     "(part after a phase) is one state; non-trivial = at least one compared kind has an element or a default is exercised "
     "on a part with >= 2 positions"
 )
@@ -89,6 +98,12 @@ ASSUMPTIONS = [
     "the map's values to the dtype of the columns, is_downbeat = 1 iff the map's distance from the measure start is 0",
     "Part.rest_array carries the same optional columns as Part.note_array (built from the same maps) and is read as "
     "covered by 'optional note-array columns' (clause rest-array-columns); rests are on staff 1, one division long",
+    "array-option-combinations: the arrays made from several parts (note_array_from_part_list, rest_array_from_part_list, "
+    "PartGroup.note_array / rest_array, Score.note_array) are read as 'note-array columns derived from the maps' of the part "
+    "each row comes from (parts of equal quarter duration only, so no rescaling is involved); rows are identified by id "
+    "with or without the 'Pnn_' part prefix; with collapse=True only the rows that remain are compared (at the onset of the "
+    "rest whose id the row carries); columns that were not requested are not looked at; "
+    "rest_array_from_part_list / PartGroup.rest_array take no include_metrical_position (not generated)",
     "a part beginning before its first barline is only generated with a complete first measure (no pickup) and no change of "
     "time signature or quarter duration up to the first barline",
     "requery-after-write: a caller may write into an array a map returned when numpy allows it (flags.writeable); results that "
@@ -156,7 +171,7 @@ def impl_apply(part, objs, op):
         o = S.Note("C", 4, id=op[4], voice=1, staff=op[3])
         part.add(o, op[1], op[2])
     elif k == "rest":
-        o = S.Rest(id=op[4], voice=1, staff=op[3])
+        o = S.Rest(id=op[4], voice=op[5] if len(op) > 5 else 1, staff=op[3])
         part.add(o, op[1], op[2])
     elif k == "rm":
         part.remove(objs[op[1]])
@@ -556,6 +571,120 @@ def check_note_array(res, part, st, maps, ctx, kind="note"):
     return calls
 
 
+def _array_call(entry, a, b):
+    """-> function(**options) building the array through the named entry point from part a (and companion b)."""
+    import partitura.score as S
+    from partitura.utils import music as U
+
+    name, _, form = entry.partition(":")
+    parts = {"": None, "1": [a], "2": [a, b], "2r": [b, a]}[form]
+    if name in ("Part.note_array", "Part.rest_array"):
+        return getattr(a, name[5:])
+    if name in ("note_array_from_part", "rest_array_from_part"):
+        return lambda **kw: getattr(U, name)(a, **kw)
+    if name in ("note_array_from_part_list", "rest_array_from_part_list"):
+        return lambda **kw: getattr(U, name)(list(parts), **kw)
+    if name in ("PartGroup.note_array", "PartGroup.rest_array"):
+        pg = S.PartGroup()
+        pg.children = list(parts)
+        return getattr(pg, name[10:])
+    if name == "Score.note_array":
+        return S.Score(list(parts)).note_array
+    raise ValueError(entry)
+
+
+def _strip_part_prefix(i):
+    """ids of arrays made from several parts carry 'P<nn>_' in front (once per level); the ids of the cases never begin so."""
+    i = str(i)
+    while len(i) > 4 and i[0] == "P" and i[1:3].isdigit() and i[3] == "_":
+        i = i[4:]
+    return i
+
+
+def check_array_options(res, case, a, st_a, ctx):
+    """Space array-option-combinations: the array of notes / rests is built through one entry point for EVERY subset of
+    its boolean options; whenever key-signature, time-signature or metrical-position columns are requested they must be
+    there and hold, in every row, the reference values at the onset of that row's element in that row's own part.
+    -> (calls, number of arrays compared)"""
+    import partitura.score as S
+
+    spec = case["arrays"]
+    kind, entry = spec["kind"], spec["entry"]
+    clause = "%s-array-columns" % kind
+    where = entry.partition(":")[0]
+    sts = [st_a]
+    b = None
+    calls = 0
+    if spec.get("second"):
+        b = S.Part("P1", quarter_duration=case["q"])
+        st_b = M.State(case["q"])
+        objs = []
+        for op in spec["second"]:
+            impl_apply(b, objs, op)
+            st_b.apply(op)
+            calls += 1
+        sts.append(st_b)
+    build = _array_call(entry, a, b)
+    elems = {}  # id -> (element, part, reference values per column family at its onset, second accepted reading)
+    for st in sts:
+        meas = M.ref_measures(st)
+        for o in st.of(kind):
+            t = o[1]
+            m = M.ref_measure_at(meas, t)  # the generator puts every onset inside a measure
+            d, ln = _num(t - m[0]), _num(m[1] - m[0])
+            ref = {"ks": list(M.ref_ks(st, t)), "ts": list(M.ref_ts(st, t)), "meas": [1 if d == 0 else 0, d, ln]}
+            # documented for one-measure parts: position 0 everywhere
+            elems[o[4]] = (o, "A" if st is st_a else "B", ref, dict(ref, meas=[1, 0, 0]) if len(meas) == 1 else None)
+    opts = M.array_options(entry)
+    free = [o for o in opts if o not in spec["fixed"]]
+    ncmp = 0
+    for bits in itertools.product((False, True), repeat=len(free)):
+        kw = dict(spec["fixed"])
+        kw.update(zip(free, bits))
+        on = "+".join(o.replace("include_", "") for o in opts if kw[o]) or "no option"
+        calls += 1
+        try:
+            na = build(**kw)
+        except Hang:
+            raise
+        except Exception as ex:  # noqa
+            res.fail(clause, kind="exception", where=innermost_partitura_frame(ex) or where, observed=exc_text(ex),
+                     detail="%s %s(%s)" % (ctx, entry, on))
+            return calls, ncmp
+        want = [k for k, o in (("ks", "include_key_signature"), ("ts", "include_time_signature"),
+                               ("meas", "include_metrical_position")) if kw.get(o)]
+        names = na.dtype.names or ()
+        missing = [c for k in want for c in NA_COLS[k] if c not in names]
+        if missing or "id" not in names:
+            res.fail(clause, expected="columns %s" % sum((NA_COLS[k] for k in want), ["id"]), observed=list(names), where=where,
+                     detail="%s %s(%s)" % (ctx, entry, on))
+            return calls, ncmp
+        ids = sorted(_strip_part_prefix(i) for i in na["id"])
+        if kw.get("collapse"):
+            # rests following one another in a voice are joined into the first one: which rows stay is not part of
+            # the statement; every row that stays is an element of the part and is compared at its own onset
+            rows_ok = len(ids) > 0 and len(set(ids)) == len(ids) and set(ids) <= set(elems)
+        else:
+            rows_ok = ids == sorted(elems)
+        if not rows_ok:
+            res.fail(clause, expected=sorted(elems), observed=[str(i) for i in na["id"]], where=where,
+                     detail="%s %s(%s) (rows)" % (ctx, entry, on))
+            return calls, ncmp
+        cols = sum((NA_COLS[k] for k in want), [])
+        if not cols:
+            continue
+        ncmp += 1
+        for row in na:
+            o, pname, ref, ref2 = elems[_strip_part_prefix(row["id"])]
+            exp = sum((ref[k] for k in want), [])
+            obs = [_num(row[c]) for c in cols]
+            if obs != exp and (ref2 is None or obs != sum((ref2[k] for k in want), [])):
+                res.fail(clause, expected=dict(zip(cols, exp)), observed=dict(zip(cols, obs)), where=where,
+                         detail="%s %s(%s) %s %s of part %s onset=%d" % (ctx, entry, on, kind, o[4], pname, o[1]))
+                return calls, ncmp
+    return calls, ncmp
+
+
 _CODES = None
 
 
@@ -623,6 +752,11 @@ def eval_case(case):
         res.transitions += check_note_array(res, part, st, maps, ctx)
         if not res.violations:
             res.transitions += check_note_array(res, part, st, maps, ctx, kind="rest")
+        ncmp = 0
+        if "arrays" in case and not res.violations:
+            c, ncmp = check_array_options(res, case, part, st, ctx)
+            res.transitions += c
+            res.states += max(ncmp - 1, 0)  # every option combination is one evaluation of the columns clause
         meas = M.ref_measures(st) if "meas" in maps else []
         pk = bool(meas) and meas[0][0] != meas[0][3]
         out = "ts%d ks%d clefstaves%s/%d meas%d pickup%d phases%d" % (
@@ -640,6 +774,9 @@ def eval_case(case):
         if meas and "fill" in case:
             # how many bar lengths of the last measure the latest onset lies after its start
             out += " fill-%s k%d" % (case["fill"], min((T[-1] - 1 - meas[-1][0]) // (meas[-1][1] - meas[-1][0]), 3))
+        if "arrays" in case:
+            out += " arrays:%s(%s..) combos%d" % (case["arrays"]["entry"], "".join(
+                str(int(v)) for _, v in sorted(case["arrays"]["fixed"].items())), ncmp)
         if len(T) >= 2:
             nontrivial = True
         if res.violations:
@@ -786,6 +923,37 @@ def spaces(tier, seed):
                "barline only with a complete first measure; thorough: L=1..8, quarter durations 1,2, 11 signature options, "
                "(g,d) in (0,1) (0,2) (0,4) (0,9) (1,0) (2,0) (4,0) (1,2) (3,5), all three fills"
                + (" (blocks of 64)" if not thorough else "")))
+    # -- the optional columns under every combination of the array options, through every way of getting an array
+    ts_arr = [None, ("at0", 3, 4), ("at0", 6, 8), ("gap", 3, 4)]
+    wide_entries = dict((k, M.ARRAY_ENTRIES[k] + M.ARRAY_ENTRIES_WIDE[k]) for k in M.ARRAY_ENTRIES)
+    sp.append(Space(
+        "array-option-combinations",
+        _blocked(lambda: M.gen_array_options((4,), (1,), 2, ts_arr, cycle_ks=True),
+                 lambda: itertools.chain(
+                     M.gen_array_options((3, 4, 5), (1,), 3, ts_arr + [("at0", 2, 2)], entries=wide_entries),
+                     M.gen_array_options((4,), (2,), 3, ts_arr + [("at0", 2, 2)], entries=wide_entries)),
+                 tier, seed, nb=125),
+        bounds="the key-signature / time-signature / metrical-position columns of note arrays AND rest arrays under EVERY "
+               "subset of the boolean options of the call (note arrays: include_pitch_spelling, include_key_signature, "
+               "include_time_signature, include_metrical_position, include_grace_notes, include_staff, "
+               "include_divs_per_quarter = 128 subsets, 64 for the part-list / group / score forms, which always compute the "
+               "divisions per quarter; rest arrays: the first six + collapse = 128, 64 for the part-list / group forms, which "
+               "have no include_metrical_position; every option passed explicitly as True/False), obtained "
+               "through every entry point: Part.note_array, note_array_from_part, note_array_from_part_list([A, B]), "
+               "PartGroup.note_array (children A, B), Score.note_array (parts A, B), Part.rest_array, rest_array_from_part, "
+               "rest_array_from_part_list([A, B]), PartGroup.rest_array (children A, B). Every requested column must be "
+               "present and hold, in every row, the reference value at the onset of that row's element in that row's OWN "
+               "part (rows are identified by id, 'Pnn_' prefixes accepted; with collapse=True any non-empty subset of the "
+               "rests may remain). Part A: every tiling of 0..L by measures, time signature none / 3/4 / 6/8 at 0 with a "
+               "change at the last barline / 3/4 starting at the second barline, key signatures none / one at 0 / one at 2 / "
+               "two (0 and 3), a note and a rest of one division at EVERY position (rests on staves 1/2, voices 1/2), "
+               "signatures inserted first or last; part B (fixed per quarter duration): 5/4 then 7/8, 6 flats minor then 6 "
+               "sharps, pickup of one division. The three map families of A are also queried at every position as in the "
+               "other spaces. (One case fixes the first three options and enumerates the others: 8 cases make one "
+               "(part, entry point).) core: L=4, <=2 measures, quarter duration 1, the key-signature option cycled over the "
+               "parts; thorough: L=3..5, <=3 measures, + 2/2, L=4 also with quarter duration 2, all four key-signature options "
+               "for every part, and the forms note_array_from_part_list([A]) / ([B, A]), Score.note_array([A]), "
+               "rest_array_from_part_list([A]) / ([B, A])" + (" (blocks of 125: coprime with the 8 cases of one (part, entry point))" if not thorough else "")))
     # -- a caller writes into a returned array and asks again
     sp.append(Space(
         "write-into-result-then-query",
